@@ -472,6 +472,16 @@ fn data_case(reg: Reg, front: Front, dslot: Option<usize>, off: Option<u8>, dcla
             let f = link.mac_frame(&c, true);
             script.pre_rx1.push(f);
         }
+        if front == Front::AsyncC && rng.chance(1, 6) {
+            // the radio reports a receive error while the device listens in a gap (a frame with a bad CRC
+            // overheard on the RX2 channel): the windows open when they are due all the same
+            col.event("classc_gap_radio_errors");
+            if rng.bool() {
+                script.pre_rx1.push(vec![]);
+            } else {
+                script.between.push(vec![]);
+            }
+        }
         let t = link.txn(&[step as u8], 4, rng.chance(1, 5), &script);
         if let Resp::Panic(m, l) = &t.resp {
             col.violation(&format!("C10|panic|{}|{}", reg.name(), short_loc(l)), "device panicked during a data transaction", json!({"msg": m, "loc": l, "dr": dr}));
